@@ -13,8 +13,10 @@ def compact(acts):
             out.append("%s:%s %s" % ("LR"[a[1]], a[2], " ".join(map(str, a[3:]))))
         elif a[0] == "step":
             out.append(a[1])
-        else:
+        elif isinstance(a[0], str):
             out.append(a[0] + ("" if len(a) == 1 else str(a[1:])))
+        else:
+            out.append(str(a))
     return "; ".join(out)
 
 if __name__ == "__main__":
